@@ -295,15 +295,6 @@ func classifyFalseDup(s Schema, pre []Row, st Stmt) string {
 			}
 		}
 	}
-	if len(s.PK) >= 2 {
-		for i := range cs {
-			for j := i + 1; j < len(cs); j++ {
-				if !s.keyEq(cs[i], cs[j]) && keyString(s, cs[i]) == keyString(s, cs[j]) {
-					return "false-dup/composite-key-string-collision"
-				}
-			}
-		}
-	}
 	for _, u := range s.Uniq {
 		for k, c := range u.Cols {
 			if !s.Cols[c].Str || u.Prefix[k] == 0 {
@@ -355,6 +346,17 @@ func classifyFalseDup(s Schema, pre []Row, st Stmt) string {
 			for yi, y := range cs {
 				if yi != xi && yi >= len(pre) && byteUniqEq(u, x, y) {
 					return "false-dup/unique-value-freed-by-pending-delete-" + st.Kind
+				}
+			}
+		}
+	}
+	// (repaired by commit 1b57e874c; checked last so that a returning collision is reported unless another known cause
+	// explains the input)
+	if len(s.PK) >= 2 {
+		for i := range cs {
+			for j := i + 1; j < len(cs); j++ {
+				if !s.keyEq(cs[i], cs[j]) && keyString(s, cs[i]) == keyString(s, cs[j]) {
+					return "false-dup/composite-key-string-collision"
 				}
 			}
 		}
@@ -547,13 +549,6 @@ func run(c *lib.Ctx, cs caseT) {
 			}
 			if succeeded && !ref.Dup && !BagEq(post, ref.Rows) {
 				c.Count("contents_differ_from_reference")
-				if len(s.PK) >= 2 && classifyFalseDup(s, pre, st) == "false-dup/composite-key-string-collision" {
-					// the edit accumulator mixed up rows with colliding key strings (C13's finding): the table's index
-					// storage (not visible through SELECT *, not modelled) no longer matches its rows and later index
-					// scans misbehave; the rest of the history would only show after-effects.
-					c.Count("history_cut_after_key_string_collision_mixed_up_rows")
-					break
-				}
 			}
 		}
 		pre = post
